@@ -164,3 +164,33 @@ Proof.
   pose proof (fsub_scale k hi lo hi' lo' Sh Sl B1 B2 B3) as S2.
   destruct (ratio100_invariant k _ _ _ _ S1 S2 Nz Hq) as (_ & _ & E). exact E.
 Qed.
+
+(* division by an unscaled (dimensionless) finite float, e.g. the count of a window *)
+Theorem fdiv_scale_by k a a' (c : float) : scaled k a a' -> finF c -> FR c <> 0 ->
+  Rabs (FR a / FR c) <= BIG -> Rabs ((FR a / FR c) * bpow radix2 k) <= BIG -> zero_or_normal k (FR a / FR c) ->
+  scaled k (a / c)%float (a' / c)%float.
+Proof.
+  intros (Fa & Fa' & Ea) Fc Nc H1 H2 Hz.
+  destruct (fdiv_exact a c Fa Nc H1) as [F1 E1].
+  assert (Eq : FR a' / FR c = (FR a / FR c) * bpow radix2 k) by (rewrite Ea; unfold Rdiv; ring).
+  destruct (fdiv_exact a' c Fa' Nc) as [F2 E2]; [rewrite Eq; exact H2|].
+  split; [exact F1|]. split; [exact F2|]. rewrite E2, E1, Eq. apply RN_mult_bpow0. exact Hz.
+Qed.
+
+(* one update of SimpleMovingAverage, sum' = sum - old + x and output sum' / count: if the running sum, the evicted value and the input
+   of a second instance are those of the first scaled by 2^k, then so are the new running sum and the output — provided the three
+   intermediate results are zero or normal before and after the scaling and stay below 2^1000. By induction over the stream (the ring
+   buffer only stores inputs) SMA(2^k x) = 2^k SMA(x) bit for bit on every stream that meets these side conditions at every step. *)
+Theorem sma_update_pow2 k (sum old x sum' old' x' cnt : float) : scaled k sum sum' -> scaled k old old' -> scaled k x x' ->
+  finF cnt -> FR cnt <> 0 ->
+  let d := (sum - old)%float in let s1 := (sum - old + x)%float in
+  Rabs (FR sum - FR old) <= BIG -> Rabs ((FR sum - FR old) * bpow radix2 k) <= BIG -> zero_or_normal k (FR sum - FR old) ->
+  Rabs (FR d + FR x) <= BIG -> Rabs ((FR d + FR x) * bpow radix2 k) <= BIG -> zero_or_normal k (FR d + FR x) ->
+  Rabs (FR s1 / FR cnt) <= BIG -> Rabs ((FR s1 / FR cnt) * bpow radix2 k) <= BIG -> zero_or_normal k (FR s1 / FR cnt) ->
+  scaled k s1 (sum' - old' + x')%float /\ scaled k (s1 / cnt)%float ((sum' - old' + x') / cnt)%float.
+Proof.
+  intros Ss So Sx Fc Nc d s1 A1 A2 A3 B1 B2 B3 C1 C2 C3.
+  pose proof (fsub_scale k sum old sum' old' Ss So A1 A2 A3) as Sd.
+  pose proof (fadd_scale k d x (sum' - old')%float x' Sd Sx B1 B2 B3) as S1.
+  split; [exact S1|]. exact (fdiv_scale_by k s1 _ cnt S1 Fc Nc C1 C2 C3).
+Qed.
